@@ -178,6 +178,33 @@ def standin_resolution(tier, seed):
             full = cirq.resolve_parameters(partial, cirq.ParamResolver({"b": vals["b"], "c": vals["c"]}))
             if not cirq.is_parameterized(full) and not np.allclose(cirq.unitary(full), want, atol=1e-8):
                 fails.append(dict(args=dict(gate=repr(g), values=vals), failed="compositional", clause="resolving a then (b, c) differs from resolving all at once"))
+        # composition of resolvers: resolving with r1 and then r2 equals resolving once with the composed resolver, also when both
+        # assign the same symbol (the inner assignment wins, and its value is then resolved by the outer one)
+        for _c in range(3):
+            keys1 = rng.sample([a, b, c], rng.randrange(1, 3))
+            free = [sy for sy in (a, b, c) if sy not in keys1]  # r1's values mention only symbols r1 does not assign: one step == recursive
+            pool_v = [0.9, 0.3, -0.5] + free + [free[0] + 0.1, 2 * free[-1]]
+            r1 = {sy: rng.choice(pool_v) for sy in keys1}
+            r2 = {sy: rng.choice([0.9, 0.3, -0.5, 1.25]) for sy in rng.sample([a, b, c], rng.randrange(1, 4))}
+            x = rng.choice(exprs)
+            cases += 1
+            by_hand = sympy.sympify(x).subs(r1, simultaneous=True)
+            by_hand = sympy.sympify(by_hand).subs(r2, simultaneous=True)
+            try:
+                composed = cirq.resolve_parameters(cirq.ParamResolver(r1), cirq.ParamResolver(r2))
+                once = cirq.resolve_parameters_once(cirq.ParamResolver(r1), cirq.ParamResolver(r2))
+                got1 = composed.value_of(x)
+                got2 = once.value_of(x, recursive=False)
+                seq = cirq.ParamResolver(r2).value_of(cirq.ParamResolver(r1).value_of(x))
+            except Exception as ex:
+                continue
+            for label, got in (("resolve_parameters(r1, r2)", got1), ("resolve_parameters_once(r1, r2)", got2), ("value_of twice", seq)):
+                probe = {a: 0.7310, b: -0.4127, c: 1.3359}  # whatever symbols remain are compared at a generic point
+                d_ = complex(sympy.sympify(got).subs(probe)) - complex(sympy.sympify(by_hand).subs(probe))
+                if abs(d_) > 1e-9:
+                    fails.append(dict(args=dict(expression=repr(x), r1=repr(r1), r2=repr(r2), via=label), failed="resolver-composition",
+                                      clause=f"{label} gives {got} for the expression; substituting r1 and then r2 by hand gives {by_hand}"))
+                    break
         # linear combinations of gates / operations: resolving equals substituting term by term and ADDING (terms may become equal)
         for G in (cirq.X, cirq.Z, cirq.Y):
             ea, eb = rng.choice([a, b, a + b, 2 * a]), rng.choice([a, b, c, a * b])
